@@ -114,6 +114,11 @@ func c15Run(c *Ctx, tp *tape.Tape, extra map[string]any) *Failure {
 		} else if f.Arg >= 1000 {
 			pos = "after-echo"
 		}
+		for _, rec := range r.Dev.Transcr {
+			if rec.K == f.At && f.Arg >= len(rec.Line) {
+				pos = "after-echo" // an offset at the end of the echo is behind it, too
+			}
+		}
 		sfx := "|" + form + "|" + pos
 		for _, rec := range r.Dev.Transcr {
 			if rec.K == f.At && rec.More {
